@@ -1122,7 +1122,7 @@ func (c *Ctx) calleeGuardedByCallers(fn *ssa.Function, tname, fname string) bool
 
 func init() {
 	register("C08", &propDef{
-		explain: "Totality rules for the front end decided on code shape: every `return nil` of the parser is justified on every path (error, continuation, or propagated from a callee that obeys the rule); every lexer loop advances the position on every cycle and exits on byte 0 (predicates constant-folded at 0); every parser loop consumes a token per cycle and, partially evaluated with current = next = end marker (EOF and EOL, registry lookups resolved from the registration table), cannot complete a cycle; error rendering clamps its counts and slices; children the parser may leave nil are nil-tested by the printers; possibly-nil list elements are tested before use inside the parser. These hold for all byte strings rather than for strings up to a length.",
+		explain: "Totality rules for the front end decided on code shape: every `return nil` of the parser is justified on every path (error, continuation, or propagated from a callee that obeys the rule); every lexer loop advances the position on every cycle and exits on byte 0 (predicates constant-folded at 0); every parser loop consumes a token per cycle and, partially evaluated with current = next = end marker (EOF and EOL, registry lookups resolved from the registration table), cannot complete a cycle; error rendering clamps its counts and slices; children the parser may leave nil are nil-tested by the printers; possibly-nil list elements are tested before use inside the parser. These hold for all byte strings rather than for strings up to a length. Also: index/slice bounds into operands of compile-time length (arrays, string constants, once-initialised package-level slices) are bounded by type or by a dominating constant comparison.",
 		assume:  []string{"termination of the parser's recursion (as opposed to its loops) follows from each recursive call consuming input, which is not checked here", "the printers' panic on an unknown precedence is covered under C02.R3"},
 		run:     runC08,
 	})
